@@ -25,7 +25,7 @@ def pinned_update(repo, lam, v_zero):
     v = Rat.const(T, 0) if v_zero else T.cplx("v")
     lamr = Rat.const(T, lam)
     lap = LinOp("psi_laplacian", apply=lambda I, x: lamr * x)
-    ip.branch_policy = lambda test, fr: False if any(isinstance(n, ast.Compare) for n in ast.walk(test)) else None
+    ip.branch_policy = _accepting
     kw = dict(psi=v, abs_sq_psi=v.abs2(), mu=T.real("mu"), epsilon=T.real("epsilon"),
               gamma=T.real("gamma", "nonneg"), u=T.real("u", "pos"), dt=T.real("dt", "pos"), psi_laplacian=lap)
     ret = ip.call_function(f, [], kw)
@@ -223,3 +223,15 @@ def wiring(ctx, rule="R06.3", only_flag=False):
 def self_attr_of(fn, attr):
     from ..dataflow import self_attr_assignments
     return self_attr_assignments(fn).get(attr, [])
+
+
+def _accepting(test, fr):
+    """branch policy of the psi solve: follow the path on which no discriminant is negative, whichever way the test is spelled
+    (`if any(d < 0): refuse` / `if not any(d < 0): answer`)"""
+    if not any(isinstance(n, ast.Compare) for n in ast.walk(test)):
+        return None
+    nots = 0
+    while isinstance(test, ast.UnaryOp) and isinstance(test.op, ast.Not):
+        nots += 1
+        test = test.operand
+    return nots % 2 == 1
